@@ -1176,7 +1176,7 @@ class ConfigInformation:
         if self.init_tasks:
             state_dict["init-tasks"] = [id(init_task) for init_task in self.init_tasks]
 
-        if self.meta:
+        if self.meta is not None:
             state_dict["meta"] = self.meta
 
         if self.task is not None:
@@ -1465,7 +1465,7 @@ class ConfigInformation:
                 xpminfo.loaded = True
 
                 meta = definition.get("meta", None)
-                if meta:
+                if meta is not None:
                     xpminfo._meta = meta
                 if xpminfo.xpmtype.task is not None:
                     xpminfo.job = object()
